@@ -17,7 +17,8 @@ pub struct C10;
 
 pub const MTIMES: &[(i64, u32)] = &[(1, 1), (1_000_000_000, 0), (1_700_000_000, 123_456_789), (4_102_444_800, 999_999_999), (1_600_000_000, 1), (2_000_000_000, 500_000_000)];
 pub const IDS: &[u32] = &[0, 1, 1000, 65534];
-const XNAMES: &[&str] = &["user.a", "user.xv.test", "user.mime_type", "user.\u{e9}"];
+// in util::esc form: the last two are not valid UTF-8 (Latin-1 e-acute; raw 0xff 0xfe)
+const XNAMES: &[&str] = &["user.a", "user.xv.test", "user.mime_type", "user.\u{e9}", "user.caf\\xe9", "user.\\xff\\xfe.raw"];
 
 #[derive(Clone, Debug, Serialize, Deserialize)]
 pub struct FileMeta {
@@ -264,6 +265,9 @@ pub fn judge(c: &Case, rec: &mut Rec) -> Verdict {
         };
         let special = f.mode & 0o7000 != 0;
         let multi = f.len as u64 > bs;
+        if f.xattrs.iter().any(|(n, _)| XNAMES[*n as usize % XNAMES.len()].contains("\\x")) {
+            rec.class("xattr-name=non-utf8".to_string());
+        }
         let key = format!(
             "{}|{}|umask{:o}|{}|{}|{}|{}|{}",
             driver,
@@ -362,6 +366,6 @@ impl Check for C10 {
         }
     }
     fn required_classes(&self, _tier: Tier) -> Vec<String> {
-        ["special4000", "special2000", "special1000", "mode0", "|xattr|", "|overwrite|", "multiblock", "starved", "|P", "T", "O|", "umask0|", "umask77|", "single-file", "extra-opts", "setgid-destdir", "prior-owner"].iter().map(|s| s.to_string()).collect()
+        ["special4000", "special2000", "special1000", "mode0", "|xattr|", "|overwrite|", "multiblock", "starved", "|P", "T", "O|", "umask0|", "umask77|", "single-file", "extra-opts", "setgid-destdir", "prior-owner", "xattr-name=non-utf8"].iter().map(|s| s.to_string()).collect()
     }
 }
